@@ -68,6 +68,28 @@ func (r *REPL) SetUI(term UI) {
 	vm.SetPrintExpr(r.Context, term.Print)
 }
 
+// errorMessage returns the message of a python exception (its first
+// argument) without the location and source text Error() adds to it
+func errorMessage(err error) string {
+	var exc *py.Exception
+	switch e := err.(type) {
+	case *py.Exception:
+		exc = e
+	case *py.ExceptionInfo:
+		exc, _ = e.Value.(*py.Exception)
+	case py.ExceptionInfo:
+		exc, _ = e.Value.(*py.Exception)
+	}
+	if exc != nil {
+		if args, ok := exc.Args.(py.Tuple); ok && len(args) > 0 {
+			if msg, ok := args[0].(py.String); ok {
+				return string(msg)
+			}
+		}
+	}
+	return err.Error()
+}
+
 // Run runs a single line of the REPL
 func (r *REPL) Run(line string) error {
 	if r.continuation {
@@ -87,7 +109,9 @@ func (r *REPL) Run(line string) error {
 	if err != nil {
 		// Detect that we should start a continuation line
 		// FIXME detect EOF properly!
-		errText := err.Error()
+		// Look at the message of the error only - err.Error() also
+		// holds the source line, which may contain anything
+		errText := errorMessage(err)
 		if strings.Contains(errText, "unexpected EOF while parsing") || strings.Contains(errText, "EOF while scanning triple-quoted string literal") {
 			stripped := strings.TrimSpace(toCompile)
 			isComment := len(stripped) > 0 && stripped[0] == '#'
